@@ -26,13 +26,14 @@ from vlib import kernels as K
 
 ID = 'C15'
 LEVEL_TEXT = ("Theorems (Props/C15.v) about the hand model of _volume_average_weights / "
-              "interp_volume_average, for node lists of ANY length: the stateful loop with carried "
-              "while-scans equals a stateless description (cell of the interval centre); weights are "
-              "positive; linearity and the explicit transpose (adjoint identity) hold for every weight "
-              "list; given the tiling of output (and input) cells by the merged intervals the result is "
-              "a convex combination (range preserved), volume*value is conserved, in log mode the log is "
-              "conserved and resistivity/conductivity give reciprocal results; see docs/C15.md for which "
-              "tiling statements are proved unboundedly and which are _partial.")
+              "interp_volume_average over the reals, for strictly increasing node lists of ANY length "
+              "(induction): the stateful loop with its carried while-scans equals a stateless description "
+              "(cell of the interval centre); weights > 0; cells outside the source grid read the nearest "
+              "cell; the merged intervals tile every output cell (and every input cell when the grids cover "
+              "the same region); equal grids give identity weights; in 3-D every new value is a convex "
+              "combination (range preserved), volume*value is conserved (linear and log10 mode), the map is "
+              "linear with an explicit matrix whose transpose satisfies the adjoint identity, and in log "
+              "mode resistivity/conductivity give reciprocal results.")
 LEVEL_NOTE = ("Hand model tied to the code by correspondence only (weights and indices compared exactly on "
               "dyadic grids, compiled and .py_func). Exact field arithmetic: rounding not modelled; "
               "discretize.utils.volume_average is third party: its matrix is compared with the model's "
